@@ -62,10 +62,9 @@ def r_alphabets(t, tier):
         out.append(("flow", alpha(["enable"], core), "header flow: queue.ready, retry_received, source.ready, new_packet, bad_packet, packet free"))
         out.append(("disp", alpha(["enable"], disp), "dispatcher: retry_required, keepalive_required, reject_power_state, source.ready, bad_packet, bad_sequence, retry_received free"))
         if tier != "quick":
-            out.append(("all", alpha(["enable"], [k for k in B if k not in ("enable", "usb_reset")]), "all inputs except enable / usb_reset free"))
+            out.append(("mix", alpha(["enable"], core + ["retry_required"]), "header flow inputs and retry_required free"))
     elif n == 2:
         out.append(("flow", alpha(["enable"], core), "header flow inputs free"))
-        out.append(("disp", alpha(["enable"], disp), "dispatcher inputs free"))
     return out
 
 
